@@ -430,6 +430,30 @@ def enum_paths(body, cap=20000, prune=True, prog=None, func=None, inline=True):
         if it is not None:
             call, callee = it
             cbody = lifted_body(callee.node)
+            # a parameter that receives a literal tuple of plain names and is only read in the helper is that tuple (so that `for v in operands`
+            # is a loop over a literal sequence and can be unrolled): helper((x, y)) with `def helper(operands)`
+            try:
+                ps_ = [p_ for p_ in callee.params if not (callee.cls and p_ == "self")]
+                lit = {}
+                for p_, a_ in list(zip(ps_, call.args)) + [(k_.arg, k_.value) for k_ in call.keywords if k_.arg]:
+                    if isinstance(a_, (ast.Tuple, ast.List)) and a_.elts and all(isinstance(e_, ast.Name) for e_ in a_.elts):
+                        lit[p_] = a_
+                if lit:
+                    stored = {n_.id for n_ in ast.walk(callee.node) if isinstance(n_, ast.Name) and isinstance(n_.ctx, (ast.Store, ast.Del))}
+                    local_names = stored | set(callee.params)
+                    lit = {p_: a_ for p_, a_ in lit.items() if p_ not in stored and not any(e_.id in local_names for e_ in a_.elts)}
+                if lit:
+                    import copy as _cp3
+
+                    class _LitParam(ast.NodeTransformer):
+                        def visit_Name(self, node):
+                            if isinstance(node.ctx, ast.Load) and node.id in lit:
+                                return ast.copy_location(_cp3.deepcopy(lit[node.id]), node)
+                            return node
+                    cbody = lift_ifexp([_LitParam().visit(_cp3.deepcopy(s_)) for s_ in callee.node.body
+                                        if not (isinstance(s_, ast.Expr) and isinstance(s_.value, ast.Constant))])
+            except Exception:
+                cbody = lifted_body(callee.node)
 
             def attr_facts(f):
                 return {k_: v for k_, v in f.items() if all(t.startswith("self.") for t in _TOK.findall(k_) if not t[0].isupper() and t not in ("is", "None", "not", "in", "and", "or", "True", "False"))}
@@ -887,7 +911,36 @@ def walk_path(path, params=(), init_env=None, kill_attr_on_call=None, prog=None,
         env2.update(benv)
         for s in body[:-1]:
             env2[s.targets[0].id] = _sub(s.value, env2, None)
-        return _sub(body[-1].value, env2, None)
+        res = _sub(body[-1].value, env2, None)
+        return _inline_revealed(res, f, 0)
+
+    def _inline_revealed(expr, ctxf, depth):
+        """calls to further one-expression helpers that the inlined body contains (revealed only now, so the path-level pass could not hoist them):
+        inlined in place, conditional expressions included - the rules read `(A if G else B)(arg)` forms"""
+        if depth > 3 or inl is None:
+            return expr
+
+        class _T(ast.NodeTransformer):
+            def visit_Lambda(self, node):
+                return node
+
+            def visit_Call(self, node):
+                self.generic_visit(node)
+                g = inl.callee(ctxf, node) if isinstance(node.func, (ast.Name, ast.Attribute)) else None
+                if g is None or g is ctxf:
+                    return node
+                b = Inliner.simple_expr(g)
+                if b is None or len(b) != 1:
+                    return node
+                ps = list(g.params)
+                if g.cls and ps and ps[0] == "self":
+                    return node
+                if any(isinstance(a, ast.Starred) for a in node.args) or node.keywords or len(node.args) != len(ps):
+                    return node
+                out = _sub(b[-1].value, dict(zip(ps, node.args)), None)
+                return _inline_revealed(out, g, depth + 1)
+        import copy as _cp2
+        return _T().visit(_cp2.deepcopy(expr))
 
     def S(expr):
         return subst(expr, cur_env(), hook)
